@@ -55,7 +55,7 @@ notP1:
 	if jp != nil && jp.sel != nil && fn == jp.loop {
 		rv := jp.recv("subscription")
 		isFresh := func(v ssa.Value) bool {
-			base, ok := isFieldLoad(v, "subscription", "done")
+			base, ok := isFieldLoad(v, "~", "type:subscriber")
 			if !ok {
 				return false
 			}
@@ -127,7 +127,7 @@ func r06_1(c *Ctx) {
 		return
 	}
 	for _, fn := range P.Funcs {
-		eachInstr(fn, func(in ssa.Instruction) {
+		eachInstrDeep(fn, func(in ssa.Instruction) {
 			cl, ok := isBuiltin(in, "close")
 			if !ok {
 				return
@@ -150,7 +150,7 @@ func r06_1(c *Ctx) {
 			// registered keys (P1/P3/call sites) need the delete of the same key in this function
 			if !isP2(why) {
 				hasDelete := false
-				eachInstr(fn, func(d ssa.Instruction) {
+				eachInstrDeep(fn, func(d ssa.Instruction) {
 					if dc, ok := isBuiltin(d, "delete"); ok {
 						a := dc.Common().Args
 						if isJoeField(a[0], "subscribers") && sameValue(a[1], x) {
@@ -196,7 +196,7 @@ func r06_2(c *Ctx) {
 		if !reach[fn] {
 			continue
 		}
-		eachInstr(fn, func(in ssa.Instruction) {
+		eachInstrDeep(fn, func(in ssa.Instruction) {
 			snd, ok := in.(*ssa.Send)
 			if !ok || !isSubscriberType(snd.Chan.Type()) {
 				return
@@ -306,7 +306,7 @@ func r06_4(c *Ctx) {
 	}
 	// the local done channel: a MakeChan of capacity >= 1 converted to subscriber
 	var done *ssa.MakeChan
-	eachInstr(fn, func(in ssa.Instruction) {
+	eachInstrDeep(fn, func(in ssa.Instruction) {
 		if mc, ok := in.(*ssa.MakeChan); ok {
 			done = mc
 		}
@@ -317,7 +317,7 @@ func r06_4(c *Ctx) {
 	}
 	isDone := func(v ssa.Value) bool { return stripConv(v) == ssa.Value(done) }
 	var sels []*ssa.Select
-	eachInstr(fn, func(in ssa.Instruction) {
+	eachInstrDeep(fn, func(in ssa.Instruction) {
 		if s, ok := in.(*ssa.Select); ok {
 			sels = append(sels, s)
 		}
@@ -394,7 +394,7 @@ func r06_4(c *Ctx) {
 		}
 	}
 	// a plain receive after registration must be on the call's own done channel
-	eachInstr(fn, func(in ssa.Instruction) {
+	eachInstrDeep(fn, func(in ssa.Instruction) {
 		if u, ok := in.(*ssa.UnOp); ok && u.Op.String() == "<-" {
 			c.check(isDone(u.X), fnLabel(fn)+":plain-receive", P.ipos(in), "plain receive on its own done channel",
 				"Subscribe blocks in a plain receive that cannot observe its own done channel: the subscriber's own error (or shutdown) does not end Subscribe")
@@ -451,7 +451,7 @@ func r06_5(c *Ctx) {
 		if !isJoeCode(P, fn) {
 			continue
 		}
-		eachInstr(fn, func(in ssa.Instruction) {
+		eachInstrDeep(fn, func(in ssa.Instruction) {
 			switch x := in.(type) {
 			case *ssa.Go:
 				n++
